@@ -66,6 +66,16 @@ def finalTopRun (bits b lsh : Nat) : List Int → Int → List Int
     let r := middleRun bits b lsh rest c0
     finalStepS bits b lsh x r.2 :: r.1
 
+/-- `g` carry-only middle steps on a (virtual) zero limb: moves a carry up by `g` limbs, rounding at
+every limb (`for _ in 0..g { znx_normalize_middle_step_carry_only(b, lsh, zero, carry) }`). -/
+def gapRun (bits b lsh : Nat) : Nat → Int → Int
+  | 0, c => c
+  | g + 1, c => (middleStepS bits b lsh 0 (gapRun bits b lsh g c)).2
+
+/-- number of gap steps after which the carry has reached a fixed point of the step:
+`ceil(BITS / base2k) + 1` (the Rust caps the gap loop there) -/
+def gapCap (bits b : Nat) : Nat := (bits + b - 1) / b + 1
+
 /-- `for j in (0..size).rev() { first (j = size-1) / final (j = 0) / middle }`, the pattern of
 `vec_znx_normalize_assign`, `vec_znx_lsh_assign` and `encode_*`.  A one-limb block only gets the
 first step (the `j == size - 1` test comes first in the Rust). -/
@@ -94,8 +104,9 @@ def interRanges (lo : Int) (rs as : Nat) : Nat × Nat × Nat × Nat :=
 
 /-- `vec_znx_normalize_inter_base2k` / `ntt120_vec_znx_big_normalize_inter` on one coefficient.
 `a`: the input limbs; result: the `rs` output limbs (the previous content of `res` is never read).
-Phases as in the Rust: carry over the discarded low limbs of `a`; zero fill of the low limbs of
-`res`; middle steps over the overlap; carry propagation into the top `res_end` limbs. -/
+Phases as in the Rust: carry over the discarded low limbs of `a`; carry-only steps over the gap
+when the shifted input lies entirely below the output; zero fill of the low limbs of `res`; middle
+steps over the overlap; carry propagation into the top `res_end` limbs. -/
 def normalizeInterCoef (bits b rs : Nat) (off : Int) (a : List Int) : List Int :=
   let so := splitOffset b off
   let lsh := so.1
@@ -104,23 +115,25 @@ def normalizeInterCoef (bits b rs : Nat) (off : Int) (a : List Int) : List Int :
   let resStart := rg.2.1
   let aEnd := rg.2.2.1
   let aStart := rg.2.2.2
-  let c1 := (carryOnlyRun bits b lsh (a.drop aStart)).getD 0
+  let c0 := (carryOnlyRun bits b lsh (a.drop aStart)).getD 0
+  -- shifted input entirely below the output: bring the carry up over the gap
+  let gap := Int.toNat (-so.2 - rs)
+  let c1 := gapRun bits b lsh (min gap (gapCap bits b)) c0
   let mid := middleRun bits b lsh ((a.take aStart).drop aEnd) c1
   let top := finalTopRun bits b lsh (List.replicate resEnd 0) mid.2
   top ++ mid.1 ++ List.replicate (rs - resStart) 0
 
 /-! ### vec_znx_normalize, different radices -/
 
-/-- accumulation mode of the cross-radix routine: plain normalisation (`res` zeroed first) or the
-NTT120 fused `AddOp` / `SubOp` forms -/
+/-- the NTT120 fused `AddOp` / `SubOp` tags (`AssignOp::apply_i64`) -/
 inductive AccOp where
-  | plain | add | sub
+  | add | sub
 deriving DecidableEq, Repr
 
 def AccOp.apply (op : AccOp) (r x : Int) : Int :=
   match op with
   | .sub => w64 (r - x)
-  | _ => w64 (r + x)
+  | .add => w64 (r + x)
 
 /-- per-coefficient state of `vec_znx_normalize_cross_base2k` (the counters are data independent
 but are kept here so that the loop reads like the Rust) -/
@@ -138,18 +151,18 @@ structure CrossSt where
   stuck : Bool
 deriving Repr
 
-/-- `znx_extract_digit_addmul(take, scale, res[res_limb], src)` with the accumulation `op` -/
-def crossExtract (bits : Nat) (op : AccOp) (take scale : Nat) (r src : Int) : Int × Int :=
+/-- `znx_extract_digit_addmul(take, scale, res[res_limb], src)` / `nfc_extract_digit_addmul` -/
+def crossExtract (bits : Nat) (take scale : Nat) (r src : Int) : Int × Int :=
   let d := getDigitW bits take src
-  (op.apply r (shlW 64 (w64 d) scale), getCarryW bits take src d)
+  (w64 (r + shlW 64 (w64 d) scale), getCarryW bits take src d)
 
 /-- one pass of the `'inner` loop body; `aLimb` is the current limb index of `a`.  Returns the new
 state and whether the inner loop is left (`break 'inner` or `break 'outer`). -/
-def crossInnerBody (bits : Nat) (op : AccOp) (ab rb aLimb : Nat) (st : CrossSt) : CrossSt × Bool :=
+def crossInnerBody (bits : Nat) (ab rb aLimb : Nat) (st : CrossSt) : CrossSt × Bool :=
   let aTake := min ab (min st.aTakeLeft st.resAccLeft)
   let st1 : CrossSt :=
     if aTake ≠ 0 then
-      let e := crossExtract bits op aTake (rb - st.resAccLeft) (st.res.getD st.resLimb 0) st.aNorm
+      let e := crossExtract bits aTake (rb - st.resAccLeft) (st.res.getD st.resLimb 0) st.aNorm
       { st with res := st.res.set st.resLimb e.1, aNorm := e.2,
                 aTakeLeft := st.aTakeLeft - aTake, resAccLeft := st.resAccLeft - aTake }
     else st
@@ -159,7 +172,7 @@ def crossInnerBody (bits : Nat) (op : AccOp) (ab rb aLimb : Nat) (st : CrossSt) 
       let aCarry := wrapN bits (st1.aCarry + st1.aNorm)
       let e : Int × Int :=
         if st1.resAccLeft ≠ 0 then
-          crossExtract bits op st1.resAccLeft (rb - st1.resAccLeft) (st1.res.getD st1.resLimb 0) aCarry
+          crossExtract bits st1.resAccLeft (rb - st1.resAccLeft) (st1.res.getD st1.resLimb 0) aCarry
         else (st1.res.getD st1.resLimb 0, aCarry)
       let m := middleStepS bits rb 0 e.1 st1.resCarry
       ({ st1 with res := st1.res.set st1.resLimb (w64 m.1), aCarry := e.2,
@@ -175,18 +188,17 @@ def crossInnerBody (bits : Nat) (op : AccOp) (ab rb aLimb : Nat) (st : CrossSt) 
   else (st1, false)
 
 /-- the `'inner: loop`, with fuel (`a_take_left` strictly decreases: `ab + 1` passes suffice) -/
-def crossInner (bits : Nat) (op : AccOp) (ab rb aLimb : Nat) : Nat → CrossSt → CrossSt
+def crossInner (bits : Nat) (ab rb aLimb : Nat) : Nat → CrossSt → CrossSt
   | 0, st => { st with stuck := true, done := true }
   | fuel + 1, st =>
-    let r := crossInnerBody bits op ab rb aLimb st
-    if r.2 then r.1 else crossInner bits op ab rb aLimb fuel r.1
+    let r := crossInnerBody bits ab rb aLimb st
+    if r.2 then r.1 else crossInner bits ab rb aLimb fuel r.1
 
-/-- `vec_znx_normalize_cross_base2k` (`bits = 64`, `op = plain`),
-`ntt120_vec_znx_big_normalize_cross` (`bits = 128`, `plain`) and
-`ntt120_vec_znx_big_normalize_cross_assign::<O>` (`bits = 128`, `add`/`sub`) on one coefficient.
-`res`: previous content of the `rs` output limbs (only read by `add`/`sub`).
-Returns `none` only if the inner-loop fuel ran out (never observed; the driver prints `err:fuel`). -/
-def normalizeCrossCoef (bits : Nat) (op : AccOp) (rb rs : Nat) (off : Int) (ab : Nat) (a res : List Int) :
+/-- `vec_znx_normalize_cross_base2k` (`bits = 64`) and `ntt120_vec_znx_big_normalize_cross`
+(`bits = 128`) on one coefficient; the previous content of `res` is never read (all limbs are zeroed
+first).  Returns `none` only if the inner-loop fuel ran out (never observed; the driver prints
+`err:fuel`). -/
+def normalizeCrossCoef (bits : Nat) (rb rs : Nat) (off : Int) (ab : Nat) (a : List Int) :
     Option (List Int) :=
   let as := a.length
   let aTot := as * ab
@@ -202,10 +214,16 @@ def normalizeCrossCoef (bits : Nat) (op : AccOp) (rb rs : Nat) (off : Int) (ab :
   let resStart := (resStartBit + rb - 1) / rb
   let aEnd := aEndBit / ab
   let aStart := (aStartBit + ab - 1) / ab
-  let res0 : List Int := if op = .plain then List.replicate rs 0 else res
+  let res0 : List Int := List.replicate rs 0
   if resStart = 0 then some res0
   else
-    let aCarry0 := (carryOnlyRun bits ab lsh (a.drop aStart)).getD 0
+    let aCarryD := (carryOnlyRun bits ab lsh (a.drop aStart)).getD 0
+    -- shifted input entirely below the output: scale the carry down over the gap (rounding shift)
+    let gapBits := Int.toNat (-lo * ab - resTot)
+    let aCarry0 :=
+      if gapBits ≠ 0 then
+        (if gapBits < bits then (if bits = 64 then mulPow2NegRef aCarryD gapBits else mulPow2Neg128 aCarryD gapBits) else 0)
+      else aCarryD
     let midRange := aStart - aEnd
     let st0 : CrossSt := { res := res0, aNorm := 0, aCarry := aCarry0, resCarry := 0, resAccLeft := rb,
                            resLimb := resStart - 1, aTakeLeft := ab, done := false, stuck := false }
@@ -224,17 +242,11 @@ def normalizeCrossCoef (bits : Nat) (op : AccOp) (rb rs : Nat) (off : Int) (ab :
               { st1 with resAccLeft := st1.resAccLeft - (resTot - resStartBit) % rb }
             else st1
           else st1
-        crossInner bits op ab rb aLimb (ab + 2) st2) st0
+        crossInner bits ab rb aLimb (ab + 2) st2) st0
     if st.stuck then none
     else if resEnd ≠ 0 then
       let c := if aStart = aEnd then st.aCarry else st.resCarry
-      let top : List Int :=
-        match op with
-        | .plain => (finalTopRun bits rb 0 (st.res.take resEnd) c).map w64
-        | _ =>
-          -- nfc_middle_carry_assign / nfc_final_carry_assign: res ±= digit(carry)
-          let ds := finalTopRun bits rb 0 (List.replicate resEnd 0) c
-          List.zipWith (fun r d => op.apply r (w64 d)) (st.res.take resEnd) ds
+      let top : List Int := (finalTopRun bits rb 0 (st.res.take resEnd) c).map w64
       some (top ++ st.res.drop resEnd)
     else some st.res
 
@@ -242,12 +254,12 @@ def normalizeCrossCoef (bits : Nat) (op : AccOp) (rb rs : Nat) (off : Int) (ab :
 `res_base2k == a_base2k` exactly as the Rust does. -/
 def normalizeCoef (rb rs : Nat) (off : Int) (ab : Nat) (a : List Int) : Option (List Int) :=
   if rb = ab then some (normalizeInterCoef 64 rb rs off a)
-  else normalizeCrossCoef 64 .plain rb rs off ab a []
+  else normalizeCrossCoef 64 rb rs off ab a
 
 /-- `ntt120_vec_znx_big_normalize` on one coefficient (`i128` input limbs, `i64` output). -/
 def bigNormalizeCoef128 (rb rs : Nat) (off : Int) (ab : Nat) (a : List Int) : Option (List Int) :=
   if rb = ab then some ((normalizeInterCoef 128 rb rs off a).map w64)
-  else normalizeCrossCoef 128 .plain rb rs off ab a []
+  else normalizeCrossCoef 128 rb rs off ab a
 
 /-- `ntt120_vec_znx_big_normalize_inter_assign::<O>` on one coefficient: `res ±= normalize(a)`
 without a temporary (no zero fill, the top limbs get `± digit(carry)`). -/
@@ -260,7 +272,9 @@ def normalizeInterAssignCoef128 (op : AccOp) (b : Nat) (off : Int) (a res : List
   let resStart := rg.2.1
   let aEnd := rg.2.2.1
   let aStart := rg.2.2.2
-  let c1 := (carryOnlyRun 128 b lsh (a.drop aStart)).getD 0
+  let c0 := (carryOnlyRun 128 b lsh (a.drop aStart)).getD 0
+  let gap := Int.toNat (-so.2 - rs)
+  let c1 := gapRun 128 b lsh (min gap (gapCap 128 b)) c0
   let mid := middleRun 128 b lsh ((a.take aStart).drop aEnd) c1
   let top := finalTopRun 128 b 0 (List.replicate resEnd 0) mid.2
   let midLo := resStart - mid.1.length
@@ -269,11 +283,13 @@ def normalizeInterAssignCoef128 (op : AccOp) (b : Nat) (off : Int) (a res : List
     ++ List.zipWith (fun r d => op.apply r (w64 d)) ((res.take resStart).drop midLo) mid.1
     ++ res.drop resStart
 
-/-- `ntt120_vec_znx_big_normalize_{add,sub}_assign` on one coefficient. -/
+/-- `ntt120_vec_znx_big_normalize_{add,sub}_assign` on one coefficient: the fused `i128` kernels
+for equal radices; for different radices normalise into a temporary of `res`'s size, then limb-wise
+`res ±= tmp` (what the HAL default does for every other back end). -/
 def bigNormalizeAssignCoef128 (op : AccOp) (rb : Nat) (off : Int) (ab : Nat) (a res : List Int) :
     Option (List Int) :=
   if rb = ab then some (normalizeInterAssignCoef128 op rb off a res)
-  else normalizeCrossCoef 128 op rb res.length off ab a res
+  else (normalizeCrossCoef 128 rb res.length off ab a).map (fun t => List.zipWith (fun r x => op.apply r x) res t)
 
 /-! ### vec_znx_normalize_assign, lsh, rsh on one coefficient -/
 
@@ -330,7 +346,9 @@ def rshCoef (f : Fuse) (b k : Nat) (a res : List Int) : List Int :=
   let resEnd := min rs steps
   let resStart := min rs (as + steps)
   let aStart := min as (rs - steps)
-  let c1 := (carryOnlyRun 64 b lsh (a.drop aStart)).getD 0
+  let c0 := (carryOnlyRun 64 b lsh (a.drop aStart)).getD 0
+  -- a moved entirely below res: bring the carry up over the gap
+  let c1 := gapRun 64 b lsh (min (steps - rs) (gapCap 64 b)) c0
   let midRange := resStart - resEnd
   -- the loop reads a[a_start - j - 1], j < mid_range
   let mid := middleRun 64 b lsh ((a.take aStart).drop (aStart - midRange)) c1
@@ -344,33 +362,13 @@ def rshCoef (f : Fuse) (b k : Nat) (a res : List Int) : List Int :=
     finalTopRun 64 b 0 (res.take resEnd) (w64 (-mid.2))
       ++ List.zipWith (fun r d => w64 (r - d)) ((res.take resStart).drop resEnd) mid.1 ++ res.drop resStart
 
-/-- the last loop of `vec_znx_rsh_assign`, literally:
-`for j in 0..steps { res[j] = 0; if j == 0 { final(res[steps-1]) } else { middle(res[steps-j-1]) } }`.
-(Zeroing index `j` while writing index `steps-j-1` is what the code does; see docs/C08.md.) -/
-def rshAssignTop (b lsh steps : Nat) (res : List Int) (c : Int) : List Int × Int :=
-  (List.range steps).foldl (fun (st : List Int × Int) j =>
-    let r := st.1.set j 0
-    let idx := steps - j - 1
-    let x := r.getD idx 0
-    if j = 0 then (r.set idx (finalStepS 64 b lsh x st.2), st.2)
-    else
-      let s := middleStepS 64 b lsh x st.2
-      (r.set idx s.1, s.2)) (res, c)
-
-/-- `vec_znx_rsh_assign` on one coefficient.  `scr` is the content of the scratch carry slot on
-entry: the Rust does not initialise it when `steps = 0` (`k = 0`).  `none` = the index panic the
-Rust hits when `steps > size`. -/
-def rshAssignCoef (b k : Nat) (scr : Int) (a : List Int) : Option (List Int) :=
-  let size := a.length
-  let sl := rshSteps b k
-  let steps := sl.1
-  let lsh := sl.2
-  if steps > size then none
-  else
-    let c1 := (carryOnlyRun 64 b lsh (a.drop (size - steps))).getD scr
-    let mid := middleRun 64 b lsh (a.take (size - steps)) c1
-    let shifted := a.take steps ++ mid.1
-    some (rshAssignTop b lsh steps shifted mid.2).1
+/-- `vec_znx_rsh_assign` on one coefficient: computes in place exactly what `vec_znx_rsh` computes
+with `a = res` (same phases: carry over the discarded limbs, zeroed when `k = 0`; gap steps when
+`⌈k/b⌉ > size`; shifted middle steps; carry propagation into the top limbs, final step last).
+`scr` (the content of the scratch carry on entry) is no longer read and the result is always
+`some`; both are kept so that callers of the model keep their signature. -/
+def rshAssignCoef (b k : Nat) (_scr : Int) (a : List Int) : Option (List Int) :=
+  some (rshCoef .overwrite b k a a)
 
 /-! ### lifting to columns -/
 
@@ -427,8 +425,7 @@ def rshAddCol (base2k k : Nat) (res a : Col) (n : Nat) : Col :=
 /-- **`vec_znx_rsh_sub`**: `res -= a · 2^-k` -/
 def rshSubCol (base2k k : Nat) (res a : Col) (n : Nat) : Col :=
   mapCoefs n res.length (fun i => rshCoef .sub base2k k (coefAt a i) (coefAt res i))
-/-- **`vec_znx_rsh_assign`**: `a := a · 2^-k`; `none` = index panic (`⌈k/base2k⌉ > size`);
-`scr` = content of the uninitialised scratch carry (only read when `k = 0`) -/
+/-- **`vec_znx_rsh_assign`**: `a := a · 2^-k` (never `none`; `scr`, the scratch content, is ignored) -/
 def rshAssignCol? (base2k k : Nat) (scr : Int) (a : Col) (n : Nat) : Option Col :=
   mapCoefs? n a.length (fun i => rshAssignCoef base2k k scr (coefAt a i))
 
@@ -462,27 +459,3 @@ def bigNormalizeNegateCol? (big128 : Bool) (resBase2k resSize : Nat) (resOffset 
     Option Col :=
   ((if big128 then bigNormalizeCol128? else bigNormalizeCol64?) resBase2k resSize resOffset a aBase2k n).map
     (fun t => t.map (fun p => p.map (fun x => w64 (-x))))
-
-/-! ### proposed repair of the gap-region defect (docs/C08.md) — not the pinned code
-
-When the shifted input lies entirely below the output (`gap = -limbs_offset - res_size > 0`) the
-repaired Rust runs `gap` extra `znx_normalize_middle_step_carry_only` steps on a zero limb after the
-discard loop, so that the carry reaches the weight of the last output limb.  On one coefficient this
-is exactly the pinned routine applied to `a` extended by `gap` zero limbs on top with the offset
-increased by `gap·b`. -/
-
-/-- repaired same-radix `vec_znx_normalize` on one coefficient -/
-def normalizeInterCoefRepaired (bits b rs : Nat) (off : Int) (a : List Int) : List Int :=
-  let gap := Int.toNat (-(splitOffset b off).2 - rs)
-  normalizeInterCoef bits b rs (off + gap * b) (List.replicate gap 0 ++ a)
-
-/-- repaired `vec_znx_rsh` (overwrite form) on one coefficient -/
-def rshCoefRepaired (b k : Nat) (a res : List Int) : List Int :=
-  let gap := (rshSteps b k).1 - res.length
-  rshCoef .overwrite b (k - gap * b) (List.replicate gap 0 ++ a) res
-
-def normalizeRepairedCol (b rs : Nat) (off : Int) (a : Col) (n : Nat) : Col :=
-  mapCoefs n rs (fun i => normalizeInterCoefRepaired 64 b rs off (coefAt a i))
-
-def rshRepairedCol (b k : Nat) (res a : Col) (n : Nat) : Col :=
-  mapCoefs n res.length (fun i => rshCoefRepaired b k (coefAt a i) (coefAt res i))
